@@ -1,5 +1,6 @@
 import PyamgV.Props.Restate
 import PyamgV.Proofs.C08Accel
+import PyamgV.Proofs.ExtSolvePathEx
 
 /-! # C08 — accelerated and black-box solves reach the requested tolerance honestly
 
@@ -91,5 +92,26 @@ open PyamgV.C08 in
 example : scipyHistory (fun x : Nat => 10 - x) 0 [.vec 3, .scal 5, .vec 9] = [10, 7, 5, 1] := by decide
 open PyamgV PyamgV.C08 in
 example : (PyamgV.solve (fun x : Nat => x + 1) (fun x => 10 - x) (fun r => r < 2) 1 0).map (·.x) = some 1 := by decide
+
+/-! ## the link to C03: which operator preconditions the accelerator (extension E17, Proofs/ExtSolvePath.lean)
+
+`SolvePath.callPrecond S Ls … cl v` = the `M` of the accelerator call `cl` (`aspreconditioner(cycle = cl.precond)`,
+whose `matvec` is `solve(v, maxiter=1, cycle, tol=1e-12)`: C01's `solvePy` without `x0`, list, callback) on the C03
+model `(Ls, S)` of a hierarchy, applied to `v`.  The driver runs it (`ext_e17_precond`) against the operator a
+recording accelerator receives from the real `solve` (C03 check). -/
+
+/-- (E17) every call of the plan is preconditioned with C03's `precM` of the requested (upper-cased) cycle type,
+whatever the tolerance test inside `solve` does: `precond_one_cycle` + the definitions of C03 -/
+restate precond_is_precM := PyamgV.SolvePath.plan_precond_is_precM
+/-- (E17) **M = C03's `mopM c 1`**: that preconditioner is the linear map of one cycle of the requested type with
+`cycles_per_level = 1` (`precond_one_cycle` combined with C03's `preconditioner_is_M`) -/
+restate precond_is_M := PyamgV.SolvePath.plan_precond_is_M
+/-- (E17) one-level hierarchy: the preconditioner is the coarse solver -/
+restate precond_one_level := PyamgV.SolvePath.plan_precond_one_level
+/-- (E17) unless the accelerator is `fgmres` the cycle string of a plan that runs is not `AMLI` (so `V`/`W`/`F`,
+the linear cycles, are the only cycle names that reach an accelerator) -/
+restate precond_cycle_not_amli := PyamgV.SolvePath.plan_cycle_not_amli
+/-- (E17) non-vacuity: `solve(…, cycle='w', accel='cg')` on a concrete two-level hierarchy, evaluated by the kernel -/
+restate example_precond := PyamgV.SolvePath.Ex.example_precond
 
 end PyamgV.Props.C08
